@@ -141,3 +141,28 @@ package astvalidation
 //@   at call valuesVisitor.valueSatisfiesOperationType: assert {default.value.list.items.are.checked.against.the.item.type.non.null.included} arg2 == item0
 //@   modifies *, count(*)
 //@   safety no-bounds
+
+// C04, required arguments (spec: ProvidedRequiredArgumentsRule, fields and directives): for every argument definition
+// that is not optional the argument is looked up on this very field/directive; a missing or null one stops the walk
+// with one error; without an error every argument definition has been examined.
+//@ func RequiredArguments$1
+//@   at call Walker.RegisterEnterFieldVisitor: assert {the.rule.looks.at.fields} true
+//@   at call Walker.RegisterEnterDirectiveVisitor: assert {the.rule.looks.at.directives.too} true
+//@   modifies *
+
+//@ func requiredArgumentsVisitor.EnterDirective
+//@   requires r != nil && r.operation != nil && r.definition != nil && r.Walker != nil
+//@   ghost var g_seen int = 0
+//@   ghost var g_bad bool = false
+//@   ghost var g_defs int = 0 - 1
+//@   at call Document.DirectiveDefinitionByNameBytes: ghost g_defs = ite(result1 && r.definition.DirectiveDefinitions[result0].HasArgumentsDefinitions, len(r.definition.DirectiveDefinitions[result0].ArgumentsDefinition.Refs), 0 - 1)
+//@   at call Document.InputValueDefinitionArgumentIsOptional: ghost g_seen = g_seen + 1
+//@   at call Document.DirectiveArgumentValueByName: assert {the.argument.is.looked.up.on.this.directive} arg1 == ref
+//@   at call Document.DirectiveArgumentValueByName: ghost g_bad = !result1 || result0.Kind == ast.ValueKindNull
+//@   ensures {a.missing.or.null.required.argument.is.reported.once} g_bad ==> count(validationError) == old(count(validationError)) + 1
+//@   ensures {no.error.without.a.missing.argument} !g_bad ==> count(validationError) == old(count(validationError))
+//@   ensures {without.an.error.every.argument.definition.was.examined} !g_bad && g_defs >= 0 ==> g_seen == g_defs
+//@   modifies *, count(validationError)
+//@   safety no-bounds
+//@   loop 0:
+//@     invariant !g_bad && count(validationError) == old(count(validationError)) && g_seen == phi0 + 1 && g_defs >= 0
